@@ -278,3 +278,6 @@ func (r *Rule) gallina() string {
 	}
 	return fmt.Sprintf("{| rname := %s; rdesc := %s; rsal := %s; rwhen := %s; rthen := %s |}", gStr(r.Name), gStr(r.Desc), gZ(r.Sal), r.When.gallina(), gList(st))
 }
+
+func mathFromBits(b uint64) float64 { return math.Float64frombits(b) }
+func mathBits(f float64) uint64     { return math.Float64bits(f) }
